@@ -34,9 +34,13 @@ def shapes(tier):
     J.append(job([S("periodic", 1), UNTIL("abs")], max_steps=6))
     if tier == "thorough":
         for st in steppers(4, dls=("abs",)):
+            if sum(1 for c in st if c["op"] == "until") > 1:
+                continue
             J.append(job([S("periodic", 1), S("periodic", 2, dl="rel")] + st, max_steps=4))
         for st in steppers(2, dls=("abs", "rel")):
-            J.append(job([S("periodic", 1), S("periodic", 2, dl="rel", origin=1), S("periodic", 3, origin=2)] + st, max_steps=4))
+            if sum(1 for c in st if c["op"] == "until") > 1:
+                continue
+            J.append(job([S("periodic", 1), S("periodic", 2, dl="rel", origin=1), S("periodic", 3, origin=2)] + st, max_steps=3))
         J.append(job([S("periodic", 1), UNTIL("abs")], max_steps=9))
     return dedup(J)
 
